@@ -330,6 +330,14 @@ def check_config(ctx, F, tag):
     ctx.ob("C18.R4.open-mode-matches-mode", NEW + tag, nwhere, okw, "switch-arm-terms", detail)
 
     # ---- R2 Drop
+    if not F.has_body(DROP):
+        # the mapping is created by mmap in `new` (established above) and nothing in this configuration unmaps it when the value
+        # goes away: whatever the reason the impl is not compiled (a cfg that excludes this target), "after drop no part of the
+        # file remains mapped" is refuted here
+        others = [b.name for b in F.all_bodies() if any(callee_name(t) == "libc::munmap" for _, t in b.calls())]
+        ctx.ob("C18.R2.munmap-on-every-path", DROP + tag, nwhere, False if not others else None, "must-pass-through",
+               "no Drop impl for MemoryMap is compiled in this configuration; munmap callers: %s" % (others or "none"), positive=not others)
+        return
     drop = F.body(DROP)
     dwhere = loc(drop.raw["span"])
     mun = [(bi, t) for bi, t in drop.calls() if callee_name(t) == "libc::munmap"]
